@@ -21,6 +21,11 @@ SHAPES = [
     ("sh4.c", "int\tf(int a)\n{\n\twhile (a)\n\t// c\n\t{\n\t\ta--;\n\t}\n\tif (a)\n\n\t{\n\t\ta++;\n\t}\n\treturn (a);\n}\n\nint\tg_z;\n"),
     ("sh5.c", "struct s_a\n#define X 1\n{\n\tint\tx;\n};\n\nint\tf(void)\n{\n\treturn (X);\n}\n"),
     ("sh6.c", "int\tf(int a)\n{\n\tif (a)\n\t\treturn (1);\n\telse c = 2;\n\telse\n\t\ta = 2;\n\treturn (a);\n}\n"),
+    # the conditional operator wherever an expression may stand: enumerator, array size, initialiser, macro body, argument,
+    # on a line that does not end in `;` too
+    ("sh7.c", "enum e_k\n{\n\tK_A = (SZ > 4) ? 1 : 2,\n\tK_B\n};\n\nint\tg_t[SZ ? 1 : 2];\nint\tg_x = SZ ? 1 : 2;\n#define PICK(a) ((a) ? 1 : 2)\n\nint\tf(int a)\n{\n"
+              "\ta = a ? f(a ? 1 : 2) : 3;\n\tif (a ? 1 : 0)\n\t\ta = f(a ?\n\t\t\t\t1 : 2);\n\treturn (a ? 1 : 2);\n}\n\nint\tg_after;\n"),
+    ("sh8.h", "#ifndef SH8_H\n# define SH8_H\n\nenum e_k\n{\n\tK_A = (SZ > 4) ? 1 : 2,\n\tK_B\n};\n\ntypedef struct s_q\n{\n\tint\ttab[SZ ? 1 : 2];\n}\tt_q;\n\nint\tf(void);\n\n#endif\n"),
 ]
 
 FRAGMENTS = [") )", "42", "\"lost\"", "1 + 2", ")", "+", "'x'", "]", "} }", ", ,", "x y z", "-> .", "= =", "? :", "[ 3"]
@@ -202,6 +207,21 @@ def run(res, tier, br, model_ok=True, search=False):
                     res.report("depth:not-back-at-file-level", f"{name}: nesting depth {its[k + 1]['lvl']} after the block closed on line {it['first'][1]}",
                                {"kind": "trace", "name": name, "src": text})
                     break
+    # fragments that are fatal everywhere, at every top-level boundary of the hand-written shapes
+    for name, text in SHAPES:
+        ls = text.split("\n")
+        depth = 0
+        for b, l in enumerate(ls):
+            if depth == 0 and b > 0 and ls[b - 1].rstrip().endswith((";", "}")) and not l.startswith(("{", "#")) and (big or rng.random() < 0.5):
+                frag = rng.choice(FRAG_ANYWHERE[:9])
+                t2 = "\n".join(ls[:b] + [frag] + ls[b:])
+                tr = run_traced(name, t2)
+                res.count("fragments", 1)
+                if tr["outcome"] == "ok":
+                    res.report("fragment:not-fatal", f"{name}: the fragment {frag!r} above line {b + 1} is taken for a statement: the file is reported {tr.get('status')} instead of the fatal diagnostic",
+                               {"kind": "trace", "name": name, "src": t2, "fragment": frag})
+            depth += l.count("{") - l.count("}")
+    cli_sequences(res, rng, progs, big)
     if model_ok and reqs:
         replies = Driver().batch(reqs)
         nbad, first = 0, None
@@ -226,7 +246,68 @@ def run(res, tier, br, model_ok=True, search=False):
     res.sample({"engine": {"name": allc[0][0], "iterations": [it["decision"] for it in run_traced(allc[0][0], allc[0][1])["iterations"][:12]]}})
 
 
+def cli_sequences(res, rng, progs, big):
+    """several files in ONE run of the real command line, some of them holding text that no rule recognises: whatever the
+    order, no file is printed `OK!` unless it is OK when analysed alone, and the status is non-zero"""
+    import os, shutil, tempfile
+    from impl import main_inprocess, pipeline
+    from props.C08 import parse_human
+    d = tempfile.mkdtemp(prefix="verif_c07_")
+    try:
+        good = progs[0].text
+        pool = {"good.c": good, "stray.c": good + "1;\n", "frag.c": good.replace("\n{\n", "\n{\n\t= 3;\n", 1), "closer.c": good + ") )\n",
+                "viol.c": good.replace("\treturn", "\treturn ", 1), "good2.c": progs[1 % len(progs)].text}
+        alone = {}
+        for nm, text in pool.items():
+            open(os.path.join(d, nm), "w").write(text)
+            alone[nm] = pipeline(nm, text)
+        names = list(pool)
+        for _ in range(24 if big else 8):
+            seq = rng.sample(names, rng.randint(2, 4))
+            out = main_inprocess(seq, d)
+            res.count("cli", 1)
+            res.nontriv(("seq", tuple(seq)))
+            rp = {"kind": "cli-seq", "files": {n: pool[n] for n in seq}, "argv": seq}
+            if out.get("exc") or out["exit"] is None:
+                res.report(out.get("exc") or "crash:main", f"run over {seq}: no exit status", rp)
+                continue
+            bad = [n for n in seq if alone[n]["outcome"] != "ok" or alone[n]["status"] != "OK"]
+            for f in parse_human(out["stdout"]):
+                nm = os.path.basename(f[0])
+                if f[1] == "OK" and nm in alone and (alone[nm]["outcome"] != "ok" or alone[nm]["status"] != "OK"):
+                    res.report("fragment:not-fatal" if alone[nm]["outcome"] == "fatal" else "verdict:ok-for-a-failing-file",
+                               f"run over {seq}: {nm} is printed OK! although alone it is {alone[nm]['outcome']}/{alone[nm].get('status')}", rp)
+            if bad and out["exit"] == 0:
+                res.report("fatal:exit-zero", f"run over {seq}: exit status 0 although {bad} do not pass", rp)
+    finally:
+        shutil.rmtree(d, ignore_errors=True)
+
+
+def replay_cli(rp):
+    import os, shutil, tempfile
+    from impl import main_inprocess, pipeline
+    from props.C08 import parse_human
+    d = tempfile.mkdtemp(prefix="verif_c07r_")
+    try:
+        for nm, text in rp["files"].items():
+            open(os.path.join(d, nm), "w").write(text)
+        out = main_inprocess(rp["argv"], d)
+        print("argv:", rp["argv"]); print(out["stdout"][:600]); print("exit:", out["exit"])
+        bad = 0
+        for f in parse_human(out["stdout"]):
+            nm = os.path.basename(f[0])
+            if f[1] == "OK" and nm in rp["files"]:
+                a = pipeline(nm, rp["files"][nm])
+                if a["outcome"] != "ok" or a["status"] != "OK":
+                    print("VIOLATED:", nm, "printed OK!, alone:", a["outcome"], a.get("status")); bad = 1
+        return bad
+    finally:
+        shutil.rmtree(d, ignore_errors=True)
+
+
 def replay(rp):
+    if rp.get("kind") == "cli-seq":
+        return replay_cli(rp)
     import core
     from trace import run_traced
     if rp.get("kind") != "trace":
